@@ -384,6 +384,11 @@ def intercepted_body(pspec, stats):
     with intercept(("get_cauchy_point",)) as rec:
         run_min(prob, pspec["cfg"])
     for e in rec.get("get_cauchy_point", []):
+        if "out" not in e:
+            # the routine itself raised on an input handed over by the solver
+            if isinstance(e.get("exc"), Exception) and not isinstance(e["exc"], Discard):
+                raise e["exc"]
+            continue
         x, g, lb, ub, mats = e["args"][0], e["args"][1], e["args"][2], e["args"][3], e["args"][4]
         xc, c = e["out"]
         try:
